@@ -188,8 +188,8 @@ func (a *haAdv) echo(src int, rv rawVote) {
 	}
 }
 
-// pairs: towards every node, each adversary account votes for a decoy value first and then for the value the
-// honest nodes vote for, in the same (round, period, step): every node sees the equivocation, must count the
+// pairs: towards every node, each adversary account votes for a decoy value and for the value the
+// honest nodes vote for (in either order), in the same (round, period, step): every node sees the equivocation, must count the
 // weight once for the honest value, and packs the pair into the bundle/certificate when it needs the weight.
 func (a *haAdv) pairs(rv rawVote) {
 	if rv.Proposal == bottom {
@@ -212,6 +212,9 @@ func (a *haAdv) pairs(rv rawVote) {
 		}
 		a.noteEquiv(acc, rv.Round, rv.Period, rv.Step, decoy)
 		a.noteEquiv(acc, rv.Round, rv.Period, rv.Step, rv.Proposal)
+		if run.r.Bool() {
+			u1, u2 = u2, u1 // real vote first, decoy second
+		}
 		for d := range run.cl.nodes {
 			a.inject(d, protocol.AgreementVoteTag, protocol.Encode(&u1), false)
 			a.inject(d, protocol.AgreementVoteTag, protocol.Encode(&u2), false)
